@@ -129,6 +129,26 @@ def run_case(case, workdir, mode="C04"):
     # sanity: the unmutated base is good
     if mutate.ref_bad(base, None, True) is not None:
         raise RuntimeError("harness: base plotfile is ref_bad: %s" % mutate.ref_bad(base, None, True))
+    # history at ONE path: intact, damaged in place, repaired, damaged otherwise ... every verdict must follow the directory
+    if mode == "C04" and not desc.get("coords_only"):
+        ip = os.path.join(workdir, "inplace")
+        seq = [None] + [mu for mu, co in case["mutants"][:3] if len(mu) == 1 and not co]
+        seq = [x for pair in zip(seq, [None] * len(seq)) for x in pair][:-1] if len(seq) > 1 else seq
+        for k, mu in enumerate(seq):
+            shutil.rmtree(ip, ignore_errors=True)
+            m = model0.clone()
+            if mu is not None and not all(mutate.apply(m, x) for x in mu):
+                continue
+            m.write(ip)
+            rb = mutate.ref_bad(ip, None, False)
+            v, e = run_taste(ip, None, False, nofail=True)
+            rec.exe([dh, "inplace", k, mu], nontrivial=rb is not None)
+            sub = {"history": "same path rewritten in place", "step": k, "mutations": mu, "limit_level": None, "coords": False}
+            if rb is not None and v == "good":
+                rec.fail("bad_reported_good", sub, "after an in-place change of the directory: ref_bad: %s" % rb)
+            elif rb is None and mu is None and v != "good":
+                rec.fail("restored_directory_rejected", sub, "the intact directory is rejected after an earlier damaged version at the same path")
+        shutil.rmtree(ip, ignore_errors=True)
     for mi, (muts, coords) in enumerate(case["mutants"]):
         m = model0.clone()
         applicable = all(mutate.apply(m, mu) for mu in muts)
